@@ -50,6 +50,8 @@ def generate(rng, seed, index, tier):
         spec["cu"] = np.array(spec["cu"], float)
         for i in range(spec["m"]):
             v = spec["cl"][i] if np.isfinite(spec["cl"][i]) else spec["cu"][i]
+            if not np.isfinite(v):
+                v = 0.0  # a free row (no finite bound at all)
             spec["cl"][i] = spec["cu"][i] = float(np.round(v, 3))
         if rng.random() < 0.5:
             # ... with right-hand side zero (no offset either: the core works on the very array cons() returned)
@@ -76,6 +78,7 @@ def generate(rng, seed, index, tier):
         # the formulation in which nothing between the callbacks and the core copies anything: equality rows with
         # right-hand side zero, no scaling - the core (and the derivative check) work on the caller's own arrays
         v = np.where(np.isfinite(np.array(spec["cl"], float)), np.array(spec["cl"], float), np.array(spec["cu"], float))
+        v = np.where(np.isfinite(v), v, 0.0)  # free rows
         spec["b"] = np.array(spec["b"], float) + np.round(v, 3)
         spec["cl"] = np.zeros(spec["m"])
         spec["cu"] = np.zeros(spec["m"])
